@@ -64,6 +64,42 @@ def crowded(case, window=25):
     return False
 
 
+def lost_without_crowding(case, peptides, ctx, opts=None):
+    """ the rare tail is interference inside a dense cluster: a peptide that one or two
+    records demand is reported when only those records are supplied, and lost when the others
+    crowd around them. Returns the peptides that are demanded by one or two small records of a
+    transcript (all other record kinds kept) and that the tool does NOT report for that reduced
+    input either: those are not part of the tail """
+    import itertools
+    peptides = set(peptides)
+    still_lost = set()
+    decided = set()
+    small = [r for r in case['records'] if r['kind'] == 'small']
+    rest = [r for r in case['records'] if r['kind'] != 'small']
+    by_tx = {}
+    for r in small:
+        by_tx.setdefault(r['tx'], []).append(r)
+    for recs in by_tx.values():
+        combos = [(r,) for r in recs] + list(itertools.combinations(recs, 2))
+        for combo in combos:
+            if decided == peptides:
+                return still_lost
+            sub = dict(case, records=rest + list(combo))
+            try:
+                demanded = (peptides - decided) & cveval.bounds(sub)['L']
+            except OverflowError:
+                continue
+            if not demanded:
+                continue
+            try:
+                got = set(cveval.run_tool(sub, ctx, opts, name='reduced')['peps'])
+            except Exception:     # pylint: disable=broad-except
+                got = set()
+            still_lost |= demanded - got
+            decided |= demanded
+    return still_lost
+
+
 def tolerated(case, out, bucket):
     """ open findings (known_findings.json) by signature """
     if bucket.startswith('crash:ValueError@svgraph/ThreeFrameTVG.py:expand_alignments') \
@@ -109,8 +145,11 @@ def prop(case, ctx):
         return out
     got = set(res['peps'])
     missing = b['L'] - got
-    if missing and tolerated(case, out, 'missing:'):
-        out.known.append(tolerated(case, out, 'missing:'))
+    k = tolerated(case, out, 'missing:') if missing else None
+    if k == 'C01-rare-tail' and lost_without_crowding(case, missing, ctx):
+        k = None        # lost even when the crowding records are taken away: not the tail
+    if k:
+        out.known.append(k)
         out.detail = dict(missing=sorted(missing)[:6])
         missing = set()
     if missing:
@@ -135,8 +174,12 @@ def prop(case, ctx):
             return out.fail(f'callVariant with {knobs} raised {type(e).__name__}: {e}',
                 cveval.crash_bucket(e) + ':knobs')
         kb = 'knobs-changed:%d,%d' % (knobs['min_nodes_to_collapse'], knobs['naa_to_collapse'])
-        if set(res2['peps']) != got and tolerated(case, out, kb):
-            out.known.append(tolerated(case, out, kb))
+        k = tolerated(case, out, kb) if set(res2['peps']) != got else None
+        if k == 'C01-rare-tail' and lost_without_crowding(case, got - set(res2['peps']), ctx,
+                dict(case['opts'], **knobs)):
+            k = None
+        if k:
+            out.known.append(k)
             out.detail = dict(knobs=knobs, changed=sorted(set(res2['peps']) ^ got)[:6])
         elif set(res2['peps']) != got:
             diff = sorted(set(res2['peps']) ^ got)[:4]
